@@ -419,6 +419,97 @@ def d14_probe(max_requests=1, idle=0.0):
     return out
 
 
+
+def sync_backlog_probe(max_requests, nclients, nlisteners, jitter=0):
+    """The REAL SyncWorker.run() (run_for_one / run_for_multiple) with real listeners whose accept queues already hold
+    nclients complete requests when the loop starts: the worker must stop taking clients once it has handled its limit,
+    answer the ones it took in full, and leave the others in the queue (for the next worker) - not reset them."""
+    import logging
+    import gunicorn.config
+    import gunicorn.glogging
+    from gunicorn.workers.sync import SyncWorker
+    cfg = gunicorn.config.Config()
+    cfg.set("max_requests", max_requests)
+    cfg.set("max_requests_jitter", jitter)
+    log = gunicorn.glogging.Logger(cfg)
+    log.error_log.handlers = [logging.NullHandler()]
+    log.error_log.propagate = False
+    served = []
+
+    def app(environ, start_response):
+        served.append(environ["PATH_INFO"])
+        start_response("200 OK", [("Content-Length", "2")])
+        return [b"ok"]
+    lss = []
+    for _ in range(nlisteners):
+        ls = socket.socket()
+        ls.setsockopt(socket.SOL_SOCKET, socket.SO_REUSEADDR, 1)
+        ls.bind(("127.0.0.1", 0))
+        ls.listen(64)
+        lss.append(ls)
+    w = SyncWorker(1, os.getppid(), lss, app, 1, cfg, log)
+    w.wsgi = app
+    w.PIPE = os.pipe()
+    w.wait_fds = w.sockets + [w.PIPE[0]]
+    limit = w.max_requests
+    clients = []
+    for i in range(nclients):
+        c = socket.create_connection(lss[i % nlisteners].getsockname())
+        c.sendall(b"GET /c%d HTTP/1.1\r\nHost: x\r\nConnection: close\r\n\r\n" % i)
+        clients.append(c)
+    time.sleep(0.05)
+    t = threading.Thread(target=w.run, daemon=True)
+    t.start()
+    t.join(8)
+    out = {"returned": not t.is_alive(), "nr": w.nr, "limit": limit, "alive": w.alive, "served": list(served), "answers": []}
+    if t.is_alive():
+        w.alive = False
+        t.join(3)
+    for i, c in enumerate(clients):
+        c.settimeout(0.3 if ("/c%d" % i) not in served else 3)
+        try:
+            data = b""
+            while True:
+                blk = c.recv(65536)
+                if not blk:
+                    break
+                data += blk
+            out["answers"].append(data)
+        except socket.timeout:
+            out["answers"].append(None)            # still waiting in the accept queue: fine
+        except OSError as e:
+            out["answers"].append(repr(e).encode())
+    for c in clients:
+        c.close()
+    for ls in lss:
+        ls.close()
+    os.close(w.PIPE[0])
+    os.close(w.PIPE[1])
+    try:
+        w.tmp.close()
+    except Exception:
+        pass
+    return out
+
+
+def judge_sync_backlog(res, max_requests):
+    fails = []
+    if not res["returned"]:
+        fails.append("run() did not return after the worker reached its limit (nr=%d, limit=%d, alive=%r)" % (res["nr"], res["limit"], res["alive"]))
+    if max_requests and res["nr"] > res["limit"]:
+        fails.append("the worker handled %d requests, its limit (max_requests + jitter) is %d: it went on accepting queued clients"
+                     % (res["nr"], res["limit"]))
+    if max_requests and res["nr"] < min(res["limit"], len(res["answers"])):
+        fails.append("the worker stopped after %d requests, before its limit %d" % (res["nr"], res["limit"]))
+    for i, a in enumerate(res["answers"]):
+        path = "/c%d" % i
+        if path in res["served"]:
+            if not (a and a.startswith(b"HTTP/1.1 200") and a.endswith(b"ok")):
+                fails.append("request %s was taken by the worker but not answered in full: %r" % (path, (a or b"")[:60]))
+        elif a is not None and a != b"":
+            fails.append("request %s was never handled but the client received %r" % (path, a[:60]))
+    return fails
+
 # ----------------------------------------------------------------------------------------------------
 def run(ctx):
     ok = ctx.build()
@@ -482,11 +573,22 @@ def run(ctx):
                           "when the main loop exited (accepted=%d, served=%r, B received %r)" % (res["accepted"], res["served"], res["B"][:40]),
                           {"kind": "d14", "result": {k2: repr(v) for k2, v in res.items()}},
                           key="gthread-idle-conn-dropped-at-recycle")
+    # the real accept loops of the sync worker with clients already queued on one / several listeners
+    combos = [(1, 1), (2, 1), (2, 2), (1, 3), (3, 2)] if quick else [(m, n) for m in (1, 2, 3, 5) for n in (1, 2, 3)]
+    for mr, nl in combos:
+        res = sync_backlog_probe(mr, 6, nl)
+        ctx.count_case(("sync-backlog", mr, nl), True)
+        ctx.hist("sync_backlog", "%d listener(s)" % nl)
+        ctx.extra.setdefault("sync_backlog", []).append({"max_requests": mr, "listeners": nl, "nr": res["nr"], "served": res["served"]})
+        for f in judge_sync_backlog(res, mr)[:2]:
+            ctx.violation("sync run() with 6 queued clients on %d listener(s), max_requests=%d: %s" % (nl, mr, f),
+                          {"kind": "sync-backlog", "max_requests": mr, "listeners": nl})
     ctx.cov["rule"] = ("one run = a fresh worker (sync / gthread / async wrapper) with max_requests in {0,1,2,5}, jitter in {0,3} and a "
                        "forced jitter pick, 1-4 keep-alive connections of 1-4 requests each, and a random schedule of accepts (only while "
                        "alive) and single-request dispatches (4-18 steps; sync: accept+dispatch pairs); application responses with "
                        "Content-Length, chunked, write() and file-wrapper bodies; non-trivial = at least one application entry; "
-                       "distinct by (worker, limit, plan, schedule, script seed); plus the real ThreadWorker.run() with real sockets for D14")
+                       "distinct by (worker, limit, plan, schedule, script seed); plus the real ThreadWorker.run() with real sockets for D14 "
+                       "and the real SyncWorker.run() (one and several listeners) with clients already queued")
     bad = ctx.correspond("sched", HEADER, cases, shard=150)
     if bad:
         i, m, im = bad[0]
@@ -527,6 +629,12 @@ def search(ctx):
 
 
 def replay(rep):
+    if rep.get("kind") == "sync-backlog":
+        res = sync_backlog_probe(rep["max_requests"], 6, rep["listeners"])
+        fs = judge_sync_backlog(res, rep["max_requests"])
+        print(res)
+        print("failures:", fs)
+        return 1 if fs else 0
     if rep.get("kind") == "d14":
         res = d14_probe()
         print(res)
